@@ -55,6 +55,15 @@ def make_fn(rng, name, bs, byval, form):
     return ("async " if rng.random() < 0.33 else "") + make_sync_fn(rng, name, bs, byval, form)
 
 
+def make_wrapped_fn(name, bs, form):
+    """The by-reference dependency type written in parentheses: still by reference, still no `Send` requirement."""
+    if form == "impl":
+        inner = "impl " + (bounds_text(bs) if bs else "::core::marker::Sized")
+        return "fn %s(deps: (&(%s))) -> i32 { 0 }" % (name, inner)
+    g = "<D%s>" % ((": " + bounds_text(bs)) if bs else "")
+    return "fn %s%s(deps: (&D)) -> i32 { 0 }" % (name, g)
+
+
 def make_relaxed_fn(name, bs, form):
     bt = " + ".join(["?Sized"] + [bname(b) for b in bs])
     if form == "inline":
@@ -65,6 +74,8 @@ def make_relaxed_fn(name, bs, form):
 
 
 def make_sync_fn(rng, name, bs, byval, form):
+    if not byval and form in ("inline", "impl") and rng.random() < 0.1:
+        return make_wrapped_fn(name, bs, form)
     if not byval and form in ("inline", "where", "impl") and not (form == "impl" and not bs) and rng.random() < 0.12:
         # a relaxed bound on the dependency (`?Sized`): legal on the fn, never a requirement of the impl
         return make_relaxed_fn(name, bs, form)
